@@ -44,11 +44,17 @@ def map_options(idx, columns, final):
 
 
 # ------------------------------------------------------------------------------------------ tree construction
-def build(idx, sym, spec):
+def build(idx, sym, spec, m=None, top=True):
     """spec -> (machine value, spec with StrV texts). kinds: orig(text,name) raw(text) rawstr(text) rawbuf(text)
     concat(children) boxed(inner) replace(inner, replacements[{start,end,content,name,enforce}]) cached(inner)"""
     k = spec['kind']
     out = dict(spec)
+    if '_text' in spec:
+        _t = spec['_text']
+        class _S:                      # rebuilding an equivalent tree over the SAME symbolic texts
+            st = sym.st; n = 0
+            def text(self, _): return _t
+        sym = _S()
     if k == 'orig':
         t = sym.text(spec['text']); out['_text'] = t
         v = idx.mk('OriginalSource', value=t, name=mkstr(spec['name']))
@@ -63,14 +69,14 @@ def build(idx, sym, spec):
         t = sym.text(spec['text']); out['_text'] = t
         v = idx.mk('RawBufferSource', value=vec([IntV(b, 'u8') for b in t.bytes()]), value_as_string=Agg([none()], 'OnceCell'))
     elif k == 'concat':
-        ch = [build(idx, sym, c) for c in spec['children']]
+        ch = [build(idx, sym, c, m, False) for c in spec['children']]
         out['children'] = [c[1] for c in ch]
         v = idx.mk('ConcatSource', children=vec([Ref(Cell(c[0], tag='heap')) for c in ch]))
     elif k == 'boxed':
-        inner, ispec = build(idx, sym, spec['inner']); out['inner'] = ispec
+        inner, ispec = build(idx, sym, spec['inner'], m, False); out['inner'] = ispec
         return Ref(Cell(inner, tag='heap')), out
     elif k == 'replace':
-        inner, ispec = build(idx, sym, spec['inner']); out['inner'] = ispec
+        inner, ispec = build(idx, sym, spec['inner'], m, False); out['inner'] = ispec
         # the object itself is built by the crate's own constructor and replace calls (see prepare())
         out['_pending'] = ('replace', inner)
         reps = []
@@ -86,6 +92,18 @@ def build(idx, sym, spec):
             sym.st.pc.append(z3.ULE(zz(rr['_start']), zz(rr['_end'])))
             reps.append(rr)
         out['replacements'] = reps
+        if not top:
+            # nested ReplaceSource: built right here through the crate's API (these calls do not branch)
+            ity = type_of(spec['inner'])
+            def one(name, args):
+                outs = api.call(m, sym.st, name, args)
+                if len(outs) != 1 or outs[0][0] != 'ret' or outs[0][1] is not sym.st: raise Inconclusive('construction call %s did not return exactly once' % name)
+                return outs[0][2]
+            obj = Ref(Cell(one('ReplaceSource::<%s>::new' % ity, [inner])))
+            for r in reps:
+                one('ReplaceSource::<%s>::replace_with_enforce' % ity, [obj, IntV(r['_start'], 'u32'), IntV(r['_end'], 'u32'), mkstr(r['content']),
+                                                                      none() if r.get('name') is None else some(mkstr(r['name'])), Enum('ReplacementEnforce', r.get('enforce', 1), {})])
+            return deref(obj), out
         return None, out
     else:
         raise Inconclusive('tree kind ' + k)
@@ -270,7 +288,70 @@ def observe(m, J, st, root, tyname, spec, what, mf):
     return states
 
 
-def finish(m, J, s, raw, spec, props, mf, depth=0):
+def flatten(spec):
+    """the flat concatenation equivalent to a (nested, boxed) ConcatSource tree"""
+    def leaves(sp):
+        if sp['kind'] == 'boxed': return leaves(sp['inner'])
+        if sp['kind'] in ('concat', 'concat_add'): return [x for c in sp['children'] for x in leaves(c)]
+        return [sp]
+    return {'kind': 'concat', 'children': leaves(spec)}
+
+
+def alt_of(spec, alt):
+    if alt == 'flat': return flatten(spec)
+    if alt == 'inner':
+        sp = spec
+        if sp['kind'] in ('concat', 'concat_add') and len(sp['children']) == 1: return sp['children'][0]
+        if sp['kind'] in ('boxed', 'cached', 'replace'): return sp['inner']
+        if sp['kind'] in ('concat', 'concat_add'):
+            ne = [c for c in sp['children'] if text_len(c) > 0]
+            if len(ne) == 1: return ne[0]
+    raise Inconclusive('no %s alternative for this tree' % alt)
+
+
+def sub_roots(m, s, spec):
+    """(name, reference, type name, spec) of the direct children of a composite, for the C06 / C13 oracles"""
+    idx = m.idx
+    root = sv(s.extra['root'])
+    if spec['kind'] == 'replace':
+        return [('inner', root.f[idx.fld('ReplaceSource', 'inner')], type_name(spec['inner']), spec['inner'])]
+    if spec['kind'] in ('concat', 'concat_add'):
+        ch = sv(root.f[idx.fld('ConcatSource', 'children')])
+        return [('child%d' % k, ch.f[k], type_name(c), c) for k, c in enumerate(spec['children'])]
+    if spec['kind'] == 'cached':
+        return [('inner', root.f[idx.fld('CachedSource', 'inner')], type_name(spec['inner']), spec['inner'])]
+    return []
+
+
+def observe_subs(m, J, s, spec, mf, what=('source', 'c1f0')):
+    """-> [(state, {name: raw})]"""
+    states = [(s, {})]
+    for (name, _, tyn, sp) in sub_roots(m, s, spec):
+        nxt = []
+        for s1, acc in states:
+            ref = dict((n, r) for (n, r, _, _) in sub_roots(m, s1, spec))[name]
+            while isinstance(ref, Ref) and isinstance(deref(ref), Ref): ref = deref(ref)
+            saved = s1.extra['root']
+            s1.extra['root'] = ref
+            tn = tyn if sp['kind'] != 'boxed' else type_name(unbox(sp))
+            for s2, raw in observe(m, J, s1, None, tn, sp, what, mf):
+                s2.extra['root'] = saved_root(s2, saved)
+                a2 = dict(acc); a2[name] = (sp, raw); nxt.append((s2, a2))
+        states = nxt
+    return states
+
+
+def unbox(sp):
+    while sp['kind'] == 'boxed': sp = sp['inner']
+    return sp
+
+
+def saved_root(s2, saved):
+    # the saved reference belongs to the state before it was cloned: find the same cell in s2 by id through extra
+    return s2.extra.get('_main_root', saved)
+
+
+def finish(m, J, s, raw, spec, props, mf, depth=0, subs_raw=None, alt=None):
     """turn the raw observation of one path into concrete observations (checking that the path determines them) and judge"""
     idx = m.idx
     mdl = J.model(m, s.pc)
@@ -289,12 +370,40 @@ def finish(m, J, s, raw, spec, props, mf, depth=0):
                 evs, ret = val
                 obs['streams'][w] = {'events': events_of(m, s, mdl, evs, idx),
                                      'end': [det_int(m, s, mdl, ret.f[idx.fld('GeneratedInfo', 'generated_line')]), det_int(m, s, mdl, ret.f[idx.fld('GeneratedInfo', 'generated_column')])]}
+        if alt:
+            ao = {'streams': {}, 'maps': {}}
+            for w, val in alt[2].items():
+                if w == 'source':
+                    from msx.contracts import as_str
+                    x = sv(val)
+                    if isinstance(x, Enum): x = sv(x.payload[x.disc].f[0])
+                    ao['source'] = det_text(m, s, mdl, as_str(x))
+                elif w.startswith('map'): ao['maps']['c' + w[3]] = source_map_of(m, s, mdl, val, idx)
+                else:
+                    evs, ret = val
+                    ao['streams'][w] = {'events': events_of(m, s, mdl, evs, idx), 'end': [det_int(m, s, mdl, ret.f[0]), det_int(m, s, mdl, ret.f[1])]}
+            obs['alt'] = ao; obs['alt_kind'] = alt[0]
+        if subs_raw:
+            obs['subs'] = {}
+            for name, (sp, sraw) in subs_raw.items():
+                so = {'streams': {}, 'maps': {}}
+                for w, val in sraw.items():
+                    if w == 'source':
+                        from msx.contracts import as_str
+                        x = sv(val)
+                        if isinstance(x, Enum): x = sv(x.payload[x.disc].f[0])
+                        so['source'] = det_text(m, s, mdl, as_str(x))
+                    elif w.startswith('map'): so['maps']['c' + w[3]] = source_map_of(m, s, mdl, val, idx)
+                    else:
+                        evs, ret = val
+                        so['streams'][w] = {'events': events_of(m, s, mdl, evs, idx), 'end': [det_int(m, s, mdl, ret.f[0]), det_int(m, s, mdl, ret.f[1])]}
+                obs['subs'][name] = so
     except Undetermined as u:
         if depth > 30: raise Inconclusive("observation not determined by the path after 30 case splits")
         for side in (u.expr, z3.Not(u.expr)):
             if m.feasible(s, side):
                 s2 = s.clone(); s2.pc.append(side); s2.model = None
-                finish(m, J, s2, raw, spec, props, mf, depth + 1)
+                finish(m, J, s2, raw, spec, props, mf, depth + 1, subs_raw, alt)
         return
     if 'source' not in obs:
         obs['source'] = oracles.provenance(obs['tree'])[0]
@@ -312,16 +421,35 @@ def finish(m, J, s, raw, spec, props, mf, depth=0):
     if len(J.samples) < 2: J.samples.append({'tree': obs['tree'], 'source': obs['source'], 'maps': obs['maps']})
 
 
-def tree_job(jid, tree, props=None, what=('source', 'c1f0', 'c0f0', 'c1f1', 'c0f1', 'map1', 'map0'), alphabet='q', flavour='mir', witnesses=()):
+def tree_job(jid, tree, props=None, what=('source', 'c1f0', 'c0f0', 'c1f1', 'c0f1', 'map1', 'map0'), alphabet='q', flavour='mir', witnesses=(), subs=True, alt=None):
     idx = api.load(flavour); m = api.machine(idx, loop_bound=64); J = Job(jid, m)
     st = State()
     sym = Sym(st, ALPHA[alphabet])
-    root, spec = build(idx, sym, tree)
+    root, spec = build(idx, sym, tree, m)
     if root is not None: st.extra['root'] = root if isinstance(root, Ref) else Ref(Cell(root))
     tyname = type_name(tree)
-    mf = lambda mdl: {'family': 'tree', 'tree': concretize_spec(mdl, spec), 'what': list(what)}
+    mf = lambda mdl: dict({'family': 'tree', 'tree': concretize_spec(mdl, spec), 'what': list(what)}, **({'alt': alt_name, 'alt_tree': concretize_spec(mdl, alt_spec[0])} if alt_spec else {}))
+    alt_spec = []; alt_name = alt
+    want_subs = subs and (props is None or any(p in ('C06',) for p in props))
+    if alt and (props is None or 'C13' in props):
+        aspec0 = alt_of(spec, alt)
+        aroot, aspec = build(idx, sym, aspec0, m)
+        alt_spec.append(aspec)
+        st.extra['alt_root'] = aroot if isinstance(aroot, Ref) else Ref(Cell(aroot))
+    else: alt = None
     for st1 in prepare(m, J, st, spec, mf):
         for s, raw in observe(m, J, st1, root, tyname, spec, what, mf):
-            finish(m, J, s, raw, spec, props, mf)
+            if alt:
+                s.extra['_main_root'] = s.extra['root']; s.extra['root'] = s.extra['alt_root']
+                for s2, araw in observe(m, J, s, None, type_name(unbox(aspec)), aspec, what, mf):
+                    s2.extra['root'] = s2.extra['_main_root']
+                    finish(m, J, s2, raw, spec, props, mf, 0, None, (alt, aspec, araw))
+                continue
+            if want_subs and spec['kind'] in ('replace', 'concat', 'concat_add', 'cached'):
+                s.extra['_main_root'] = s.extra['root']
+                for s2, sraw in observe_subs(m, J, s, spec, mf):
+                    finish(m, J, s2, raw, spec, props, mf, 0, sraw)
+            else:
+                finish(m, J, s, raw, spec, props, mf)
     J.see('ran')
     return J.result(required_witnesses=('ran',) + tuple(witnesses))
